@@ -18,8 +18,8 @@ RULE = (
     "A valid set of 2-4 sources (each with a signature fill colour) plus exactly one injected defect at a drawn position of the argument list, "
     "in every colour format where the class applies: the same codepoints under two file-name spellings (emoji_u1f600.svg + 1F600.svg, "
     "emoji_u0041.svg + 41.svg, upper/lower case hex), malformed XML, truncated file, non-SVG bytes, <pattern> fill, fill referencing a missing "
-    "paint server, unknown colour keyword, unknown spreadMethod, two different defaults for one palette variable (COLR builds), masters with "
-    "different source-name sets (variable build), bitmap_resolution > 255 for cbdt. Real CLI. Oracle: exit status != 0 and no output font written "
+    "paint server, unknown colour keyword, unknown spreadMethod, two different defaults for one palette variable (COLR builds), 2-3 masters of "
+    "which a drawn one has another, one more or one fewer source name than the rest (variable build), bitmap_resolution > 255 for cbdt. Real CLI. Oracle: exit status != 0 and no output font written "
     "by this invocation; if the command exits 0 instead the font is judged like C04/C01: every source (the defective one included) must be "
     "reachable from its codepoints at a glyph of its own carrying its own signature colour; a missing, merged or re-painted source is reported. "
     "API tier: write_font._generate_color_font with two inputs of one glyph name / sequence must raise or keep both. Non-trivial: >= 2 valid "
@@ -63,11 +63,29 @@ def case_st(draw, tier):
         fmt = draw(st.sampled_from(VECTOR))
     pos = draw(st.integers(0, n))
     cps = draw(st.lists(st.sampled_from([0x1F600 + i for i in range(10)] + [0x41, 0x61, 0x2764]), min_size=n, max_size=n, unique=True))
-    return {"defect": defect, "fmt": fmt, "cps": cps, "pos": pos, "seq_tail": draw(st.sampled_from([None, None, 0x200D]))}
+    mm = None
+    if defect == "masters_mismatch":
+        nm = draw(st.integers(2, 3))
+        mm = {"masters": nm, "which": draw(st.integers(0, nm - 1)), "kind": draw(st.sampled_from(["swap", "extra", "missing"]))}
+    return {"defect": defect, "fmt": fmt, "cps": cps, "pos": pos, "seq_tail": draw(st.sampled_from([None, None, 0x200D])), "mm": mm}
 
 
 def cases(tier):
     return case_st(tier)
+
+
+def enumerate_cases(tier):
+    """Judged on every run besides the generated cases: every way one of 2-3 masters can disagree with the rest, and every other
+    defect class once at the last position (so that no class depends on being drawn)."""
+    cps = [0x1F600, 0x41, 0x2764]
+    for nm in (2, 3):
+        for which in range(nm):
+            for kind in ("swap", "extra", "missing"):
+                yield {"defect": "masters_mismatch", "fmt": "glyf_colr_1", "cps": cps, "pos": 1, "seq_tail": None, "mm": {"masters": nm, "which": which, "kind": kind}}
+    for d in DEFECTS:
+        if d not in ("masters_mismatch", "api_dup_name"):
+            fmt = "cbdt" if d == "cbdt_too_big" else "glyf_colr_1"
+            yield {"defect": d, "fmt": fmt, "cps": cps, "pos": 3, "seq_tail": None, "mm": None}
 
 
 def fname(cps, style="emoji_u"):
@@ -175,10 +193,18 @@ def judge(case):
     with Workspace("c17") as ws:
         ws.shims()
         if d == "masters_mismatch":
-            for mi, names in enumerate((case["cps"], case["cps"][:-1] + [0x1F6B0])):
+            mm = case.get("mm") or {"masters": 2, "which": 1, "kind": "swap"}
+            v.cls("masters:%d" % mm["masters"], "mismatch:%s@%d" % (mm["kind"], mm["which"]))
+            toml = 'output_file = "VF.ttf"\ncolor_format = "glyf_colr_1"\n[axis.wght]\nname = "Weight"\ndefault = 400\n'
+            for mi in range(mm["masters"]):
+                names = list(case["cps"])
+                if mi == mm["which"]:
+                    # one master's set of source names deviates: another name, one more, or one fewer
+                    names = {"swap": names[:-1] + [0x1F6B0], "extra": names + [0x1F6B0], "missing": names[:-1]}[mm["kind"]]
                 for i, c in enumerate(names):
                     ws.write("m%d/%s" % (mi, fname([c])), good_svg(i))
-            ws.write("vf.toml", 'output_file = "VF.ttf"\ncolor_format = "glyf_colr_1"\n[axis.wght]\nname = "Weight"\ndefault = 400\n[master.regular]\nstyle_name = "Regular"\nsrcs = ["m0/*.svg"]\n[master.regular.position]\nwght = 400\n[master.bold]\nstyle_name = "Bold"\nsrcs = ["m1/*.svg"]\n[master.bold.position]\nwght = 700\n')
+                toml += '[master.m%d]\nstyle_name = "M%d"\nsrcs = ["m%d/*.svg"]\n[master.m%d.position]\nwght = %d\n' % (mi, mi, mi, mi, 400 + 150 * mi)
+            ws.write("vf.toml", toml)
             args = ["nanoemoji", "--build_dir", "build", "vf.toml"]
             files = []
         else:
